@@ -242,7 +242,9 @@ def run(seed, sc, trace=None, tier='quick'):
 
     pre = None
     if sc.get('preempt'):
-        pre = (('resource_config.py',), sc['preempt'])
+        # (typeddict.py: attribute reads and writes of the node objects are
+        # python calls - a pre-emption there splits a `+=` on a node field)
+        pre = (('resource_config.py', 'utils/typeddict.py'), sc['preempt'])
     res = C.run_world(seed, build, trace=trace, preempt=pre,
                       max_steps=60000 if tier == 'quick' else 200000)
     st = res['sim'].data.get('nodelist') or {}
